@@ -10,8 +10,8 @@ import time
 VERIF = os.path.dirname(os.path.dirname(os.path.abspath(__file__)))
 REPO = os.environ.get("JASM_REPO", "/repo")
 SPEC = os.path.join(VERIF, "spec")
-EVIDENCE = os.path.join(VERIF, "evidence")
-REPLAYS = os.path.join(VERIF, "replays")
+EVIDENCE = os.environ.get("VERIF_EVIDENCE_DIR") or os.path.join(VERIF, "evidence")   # overridden only by tools/try_seed.py
+REPLAYS = os.environ.get("VERIF_REPLAY_DIR") or os.path.join(VERIF, "replays")
 PY = "/venv/bin/python"
 NPROC = min(16, os.cpu_count() or 4)
 
